@@ -193,6 +193,14 @@ theorem c24_evicted_reaccepted (cap : Nat) (hc : 1 ≤ cap) (xs : List α) (x : 
 /-- The default capacity read from the current source satisfies the theorems' hypothesis. -/
 theorem c24_default_capacity_pos : 1 ≤ P2.Extracted.C24.defaultBufferCapacity := by decide
 
+/-- Tie to the source text: the model's `insert` is, component by component, the Lean term that
+    `rs2lean` regenerates from the current body of `DeduplicationBuffer::insert` on every run. -/
+theorem c24_model_is_source (s : Buf α) (x : α) :
+    ((s.insert x).1.buf, (s.insert x).1.set, (s.insert x).2)
+      = P2.Extracted.C24.insertT s.buf s.set s.cap x := by
+  unfold Buf.insert P2.Extracted.C24.insertT
+  by_cases hx : x ∈ s.set <;> simp [hx]
+
 /-! ## Non-vacuity: a concrete run with an eviction and a re-insertion of the evicted item. -/
 example : (after (new 2 : Buf Nat) [1, 2, 1, 3, 1]).buf = [3, 1] := by decide
 example : accepted (new 2 : Buf Nat) [1, 2, 1, 3, 1] = [1, 2, 3, 1] := by decide
